@@ -470,6 +470,19 @@ def run_C08(w):
 # ---------------------------------------------------------------------------------------------
 # C12
 
+def views(x):
+    """the derived public views of a CodeData that are computed on demand (Args.parameters, len(args)) for every nested
+    code object: they are part of what a caller observes, and a memo behind them is shared state (seeded change C12-r4)"""
+    out = []
+    try:
+        for k in x.all_code_data():
+            if k.type is not None:
+                out.append((tuple((n, kd.name) for n, kd in k.type.args.parameters.items()), len(k.type.args)))
+    except Exception as e:  # noqa
+        out.append(('ERR', type(e).__name__))
+    return tuple(out)
+
+
 def snapshot(x):
     """structure + identities of every mutable node reachable from x"""
     if isinstance(x, dict):
@@ -479,7 +492,7 @@ def snapshot(x):
     if isinstance(x, float) and x != x:
         return ('nan', id(x))
     if isinstance(x, CodeData):
-        return ('D', ser.s_data(x))
+        return ('D', ser.s_data(x), views(x))
     if isinstance(x, types.CodeType):
         return ('K', id(x), ser.s_code(x))
     return ('v', type(x).__name__, repr(x))
@@ -559,6 +572,16 @@ def c12_one(w, inp, c):
     j2, e = try_(d.to_json_data)
     if e is not None or json.dumps(j2, sort_keys=True) != ref:
         w.violation('C12:mutating-returned-json-changes-later-to_json_data', inp, {})
+    # mutating a returned Args.parameters mapping affects neither the CodeData nor a CodeData decoded later
+    v0 = views(d)
+    for k in d.all_code_data():
+        if k.type is not None:
+            m, e = try_(lambda: k.type.args.parameters)
+            if e is None and hasattr(m, 'clear'):
+                try_(m.clear)
+    d3, e = try_(CodeData.from_code, c)
+    if views(d) != v0 or (e is None and views(d3) != v0):
+        w.violation('C12:mutating-returned-parameters-changes-codedata', inp, {})
     # the heap model's prediction: from_json_data modifies no input node  (model tie on the set of modified nodes)
     if len(ref) < 20000:
         w.op('M', 'heapfromjson ' + ser.s_json(json.loads(ref)), 'OK modified=0')
@@ -567,7 +590,7 @@ def c12_one(w, inp, c):
 
 
 def snapshot_value(res):
-    if isinstance(res, CodeData): return ('D', ser.s_data(res))
+    if isinstance(res, CodeData): return ('D', ser.s_data(res), views(res))
     if isinstance(res, types.CodeType): return ('K', canon_code(res))
     if isinstance(res, dict): return ('J', json.dumps(res, sort_keys=True))
     return ('?', repr(res))
